@@ -19,6 +19,7 @@
 EXTENDS CpuList, Grouping, SequencesExt, Json
 
 CONSTANTS Alphabet, MaxLen,        \* "str"
+          EmitLen,                 \* "str": strings up to this length are handed to the driver
           SmallMax,                \* "set": MaxCpus of the reduced id space
           TopoN, TopoMs, TopoMaxL2 \* "topo"
 
@@ -84,7 +85,7 @@ ParserOK ==
     /\ p \subseteq Range
     \* every item occurs as a comma-free string of the enumeration: interval form = filter form
     /\ (IndexOf(s, COMMA) = 0 /\ ItemShape(s)) => ItemIds(s) = ItemIdsDef(s)
-    /\ ShapeOK(s) => (p \subseteq d /\ PrintT(ToJson(<<"GENSTR", s>>)))
+    /\ ShapeOK(s) => (p \subseteq d /\ (Len(s) <= EmitLen => PrintT(ToJson(<<"GENSTR", s>>))))
     /\ WellFormed(s) => p = d
 
 SetAlgebraSmallOK ==
